@@ -1,4 +1,4 @@
-package c17
+package fsx
 
 import (
 	"fmt"
@@ -11,15 +11,19 @@ import (
 
 	"github.com/emersion/go-webdav"
 	"github.com/emersion/go-webdav/verifharness/fw"
+	"github.com/emersion/go-webdav/verifharness/mon"
 )
 
-// linkSlice: failure modes that only symbolic links and special files placed
+// LinkSlice: failure modes that only symbolic links and special files placed
 // directly in the served directory can provoke (EISDIR from a copy whose
 // source link points at a directory, ENOENT below a dangling link, ELOOP,
 // ENOTDIR, "not a regular file"): every method on, below, from and onto each
 // of them. The statement quantifies over every failure mode the operating
 // system can report; WebDAV cannot create these entries, an administrator can.
 // FIFOs are left out on purpose (a GET of a FIFO blocks by design of open(2)).
+// Shared by C17 (no host path in any response) and C02 (a request answered
+// >= 400 leaves names, kinds and contents as they were; the tree also holds
+// siblings whose names start with the names the requests create).
 
 type linkReq struct {
 	Method    string `json:"method"`
@@ -36,12 +40,13 @@ var linkNames = []string{"/ln-dir", "/ln-file", "/ln-abs-dir", "/ln-abs-file", "
 
 func buildLinkTree(root string) error {
 	os.RemoveAll(root)
-	for _, d := range []string{"dir", "dir/sub", "album", "empty"} {
+	for _, d := range []string{"dir", "dir/sub", "dir/emptysub", "album", "empty", "new-old/deep", "copy.d", "empty2", "moved~"} {
 		if err := os.MkdirAll(filepath.Join(root, d), 0755); err != nil {
 			return err
 		}
 	}
-	for f, data := range map[string]string{"file.txt": "content of file", "dir/inner.txt": "inner", "dir/sub/deep.txt": "deep", "album/photo.jpg": "jpeg"} {
+	for f, data := range map[string]string{"file.txt": "content of file", "dir/inner.txt": "inner", "dir/sub/deep.txt": "deep", "album/photo.jpg": "jpeg",
+		"new.txt": "sibling new.txt", "new-old/deep/keep.txt": "keep", "copy-old": "sibling copy-old", "file.txt.bak": "sibling bak", "moved~/x": "x"} {
 		if err := ioutil.WriteFile(filepath.Join(root, f), []byte(data), 0644); err != nil {
 			return err
 		}
@@ -85,6 +90,17 @@ func linkRequests() []linkReq {
 			l = append(l, linkReq{Method: m, Path: n, Dest: "/new", Depth: "0"}, linkReq{Method: m, Path: n, Dest: "/ln-dir/new"}, linkReq{Method: m, Path: n, Dest: "/dangling-deep"})
 		}
 	}
+	// collections moved or copied to places inside themselves that only a link
+	// makes look unrelated, onto existing empty / non-empty collections there
+	for _, m := range []string{"COPY", "MOVE"} {
+		for _, src := range []string{"/dir", "/album"} {
+			for _, dst := range []string{"/ln-dir/emptysub", "/ln-dir/sub", "/ln-dir/new", "/ln-abs-dir/emptysub", "/album/latest/emptysub", "/album/latest/new", "/dir/ln-up/dir/emptysub", "/ln-outside/x"} {
+				for _, ow := range []string{"", "T", "F"} {
+					l = append(l, linkReq{Method: m, Path: src, Dest: dst, Overwrite: ow})
+				}
+			}
+		}
+	}
 	// collections that contain links, as a whole
 	for _, src := range []string{"/album", "/dir", "/"} {
 		for _, d := range []string{"0", "1", "infinity"} {
@@ -98,7 +114,7 @@ func linkRequests() []linkReq {
 	return l
 }
 
-func linkSlice(c *fw.Ctx) {
+func LinkSlice(c *fw.Ctx, mn Monitors) {
 	base := filepath.Join(c.WorkDir, "links", fmt.Sprintf("sandbox-%d-%d-q7x9z", c.Seed, c.Shard))
 	root := filepath.Join(base, "served-root-k3j5h7")
 	defer os.RemoveAll(filepath.Join(c.WorkDir, "links"))
@@ -137,11 +153,32 @@ func linkSlice(c *fw.Ctx) {
 		if r.Range != "" {
 			req.Header.Set("Range", r.Range)
 		}
+		var pre mon.Snap
+		if mn.Unchanged {
+			pre, _ = mon.Snapshot(root)
+		}
 		rec := httptest.NewRecorder()
 		c.Journal(map[string]interface{}{"link_slice": r})
 		panicked, pv, stack := fw.Guard(func() { h.ServeHTTP(rec, req) })
 		c.JournalDone()
 		c.Eval(1)
+		if mn.Unchanged && !panicked && rec.Code >= 400 {
+			if post, err := mon.Snapshot(root); err == nil && pre != nil {
+				if d := mon.Diff(pre, post, false); len(d) > 0 {
+					if len(d) > 12 {
+						d = append(d[:12], fmt.Sprintf("... and %d more", len(d)-12))
+					}
+					c.Report(fmt.Sprintf("link-slice|%s|%s|status=%d|tree-changed", r.Method, linkKind(r), rec.Code),
+						fmt.Sprintf("%s %s (Destination %q) on a tree with symbolic links answered %d but the tree changed: %v", r.Method, r.Path, r.Dest, rec.Code, d),
+						map[string]interface{}{"link_slice": r, "status": rec.Code, "body": rec.Body.String(), "diff": d})
+				}
+			}
+		}
+		if !mn.Leak {
+			c.Observe("link_slice_status", fmt.Sprintf("%s %s -> %d", r.Method, linkKind(r), rec.Code), 1)
+			c.Distinct(fmt.Sprintf("link|%s|%s|%s|%d", r.Method, r.Path, r.Dest, rec.Code))
+			continue
+		}
 		if panicked {
 			c.Report(fmt.Sprintf("link-slice|%s|panic|%s", r.Method, fw.PanicSite(stack)), fmt.Sprintf("handler panicked: %v", pv), map[string]interface{}{"link_slice": r})
 			continue
